@@ -209,6 +209,12 @@ def judge(ctx, cases):
                 op = {"op": "rev.spec.belowheads", **h, "n": n, "results": rs}
                 spec_ops.append(op)
                 spec_meta.append(("belowheads", inp, impl, n))
+                if "@" in ident:
+                    # … and never outside the named branch
+                    for r in rs:
+                        if r != "base":
+                            spec_ops.append({"op": "rev.spec.inbranch", **h, "label": ident.split("@")[0], "rev": r})
+                            spec_meta.append(("inbranch-resolve", inp, impl, r))
         elif kind == "resolve":
             if "@" not in ident and ident not in ("head", "heads", "base"):
                 for r in impl["revs"]:
@@ -276,6 +282,9 @@ def judge(ctx, cases):
         elif kind == "branchprefix":
             if a.get("holds") is not True:
                 ctx.fail(inp, "wrong-revision-in-branch: %r resolves to %r which is not the unique revision of that branch whose id starts with it" % (inp["ident"], extra), impl=impl, tags=["branchprefix"])
+        elif kind == "inbranch-resolve":
+            if a.get("holds") is False:
+                ctx.fail(inp, "outside-branch: %r resolves to %s which is not on the named branch" % (inp["ident"], extra), impl=impl, tags=["branch"])
         elif kind == "inbranch":
             if a.get("holds") is False:
                 ctx.fail(inp, "outside-branch: %r resolves to %s which is not on the named branch" % (inp["target"], extra), impl=impl, tags=["branch"])
